@@ -540,13 +540,103 @@ def block(ss, side):
     return out
 
 
+class _RenameSelfAttrs(ast.NodeTransformer):
+    def __init__(self, attr_map, name_map):
+        self.attr_map, self.name_map = attr_map, name_map
+
+    def visit_Attribute(self, node):
+        node = self.generic_visit(node)
+        if isinstance(node.value, ast.Name) and node.value.id == 'self' and node.attr in self.attr_map:
+            node.attr = self.attr_map[node.attr]
+        return node
+
+    def visit_Name(self, node):
+        if node.id in self.name_map:
+            node.id = self.name_map[node.id]
+        return node
+
+
+WIRE_METHODS = {'send_headers', 'recv_headers', 'recv_trailers', 'reset_nowait'}
+
+
+def role_names(fn_nodes):
+    """The private attributes of `self` the IR talks about, found by the role they play in the coroutines rather
+    than by their spelling: the guard (`with self.X:`), the protocol-level stream (`self.X.send_headers(...)`,
+    `recv_headers`, `recv_trailers`, `reset_nowait`), the dispatcher (`await self.X.<hook>(...)`), the channel
+    (`self.X.__connect__()`), the cardinality (`self.X.client_streaming`).  A role is renamed to its canonical
+    name only when exactly one attribute plays it."""
+    cand = {'_wrapper': set(), '_stream': set(), '_dispatch': set(), '_channel': set(), '_cardinality': set()}
+    for fn in fn_nodes:
+        for n in ast.walk(fn):
+            if isinstance(n, ast.With):
+                for it in n.items:
+                    if is_self_attr(it.context_expr) and it.optional_vars is None:
+                        cand['_wrapper'].add(it.context_expr.attr)
+            if isinstance(n, ast.Attribute) and is_self_attr(n.value):
+                if n.attr in WIRE_METHODS:
+                    cand['_stream'].add(n.value.attr)
+                elif n.attr == '__connect__':
+                    cand['_channel'].add(n.value.attr)
+                elif n.attr in ('client_streaming', 'server_streaming'):
+                    cand['_cardinality'].add(n.value.attr)
+            if isinstance(n, ast.Await) and isinstance(n.value, ast.Call) and isinstance(n.value.func, ast.Attribute) \
+                    and is_self_attr(n.value.func.value) and n.value.func.attr in HOOKS \
+                    and n.value.func.value.attr not in cand['_stream']:
+                cand['_dispatch'].add(n.value.func.value.attr)
+    cand['_dispatch'] -= cand['_stream']
+    out = {}
+    for canon, names in cand.items():
+        if len(names) == 1:
+            (actual,) = names
+            if actual != canon:
+                out[actual] = canon
+    # a renamed role must not collide with an attribute that already carries the canonical name
+    return out
+
+
+def local_roles(fn):
+    """locals the IR talks about, by role: the value received by `recv_message(...)` is `message`, the dict made of
+    the received headers is `headers_map`, the local handed over as `end=` to `send_message(...)` is `end_stream`,
+    the protocol stream a client creates (`<x>.send_request(headers, ...)`) is `stream`"""
+    m = {}
+    for n in ast.walk(fn):
+        if isinstance(n, ast.Assign) and len(n.targets) == 1 and isinstance(n.targets[0], ast.Name):
+            v = n.value
+            if isinstance(v, ast.Await) and isinstance(v.value, ast.Call) and isinstance(v.value.func, ast.Name) \
+                    and v.value.func.id == 'recv_message':
+                m[n.targets[0].id] = 'message'
+            if isinstance(v, ast.Call) and isinstance(v.func, ast.Name) and v.func.id == 'dict' and len(v.args) == 1 \
+                    and isinstance(v.args[0], ast.Name):
+                src = v.args[0].id
+                for k in ast.walk(fn):
+                    if isinstance(k, ast.Assign) and len(k.targets) == 1 and isinstance(k.targets[0], ast.Name) \
+                            and k.targets[0].id == src and isinstance(k.value, ast.Await) \
+                            and isinstance(k.value.value, ast.Call) \
+                            and ast.unparse(k.value.value.func).endswith('.recv_headers'):
+                        m[n.targets[0].id] = 'headers_map'
+        if isinstance(n, ast.Call) and isinstance(n.func, ast.Name) and n.func.id == 'send_message':
+            e = kw(n, 'end')
+            if isinstance(e, ast.Name) and e.id not in PARAMS:
+                m[e.id] = 'end_stream'
+        if isinstance(n, ast.Await) and isinstance(n.value, ast.Call) and isinstance(n.value.func, ast.Attribute) \
+                and n.value.func.attr == 'send_request' and isinstance(n.value.func.value, ast.Name) \
+                and n.value.func.value.id != 'self':
+            m[n.value.func.value.id] = 'stream'
+    m = {a: b for a, b in m.items() if a != b}
+    taken = {x.id for x in ast.walk(fn) if isinstance(x, ast.Name)}
+    if len(set(m.values())) != len(m) or any(b in taken for b in m.values()):
+        return {}
+    return m
+
+
 def canonical(tree, name, cls='Stream'):
     """the coroutine in canonical form (tools/pynorm.py): private helpers other than the modelled ones inlined,
     tests in negation normal form, early-exit form, single-use temporaries inlined"""
     try:
-        return pynorm.canonical_function(tree, cls, name, keep=lambda n: n in HELPERS)
+        fn = pynorm.canonical_function(tree, cls, name, keep=lambda n: n in HELPERS)
     except pynorm.Unsupported as e:
         raise Unsupported('normalisation of %s: %s' % (name, e))
+    return fn
 
 
 def methods(tree, cls, names):
@@ -588,9 +678,12 @@ def generate(repo):
         with open(os.path.join(repo, rel)) as f:
             tree = ast.parse(f.read(), rel)
         ms = methods(tree, 'Stream', names)
+        fns = {name: canonical(tree, name) for name in names}
+        attr_map = role_names(list(fns.values()))
         for name in names:
             check_params(ms[name], allowed)
-            fn = canonical(tree, name)
+            fn = _RenameSelfAttrs(attr_map, {}).visit(fns[name])
+            fn = _RenameSelfAttrs({}, local_roles(fn)).visit(fn)
             CTX.untracked = 0
             CTX.reset_lists(fn)
             body = block(fn.body, side)
